@@ -1,9 +1,11 @@
 (* Proc -- the invariant of the machine and what each modelled psutil function does under it. *)
 From PV Require Import Proc.Spec Proc.Lib.
 
-(* object [x] was created for incarnation [i] *)
+(* object [x] was created for incarnation [i]; or (psutil.Popen whose child was already gone) for no
+   process at all: then [i] is the negative token of its PID and the object was born with _gone *)
 Definition obj_ok (w : world) (x : pobj) (i : Z) : Prop :=
-  (exists s, ostart x = Some s /\ In (i, opid x, s) (hist w)) /\
+  ((exists s, ostart x = Some s /\ In (i, opid x, s) (hist w))
+   \/ (i = -1 - opid x /\ ostart x = None /\ ogone x = true)) /\
   (ogone x = true \/ oreused x = true -> alive w i = false) /\
   (ohash x = None \/ ohash x = Some (ident x)) /\
   (oreused x = true -> ogone x = true) /\
@@ -32,39 +34,57 @@ Lemma owner_lookup w p :
   owner w p = match lookup (table w) p with Some k => Some (kinc k) | None => None end.
 Proof. reflexivity. Qed.
 
+Lemma table_inc_nonneg w k : Inv w -> In k (table w) -> 0 <= kinc k.
+Proof. intros I Hk. apply (inv_tab _ I) in Hk. apply (inv_lt _ I) in Hk. lia. Qed.
+
+Lemma neg_not_alive w i : Inv w -> i < 0 -> alive w i = false.
+Proof.
+  intros I N. apply alive_false. intros k Hk E. pose proof (table_inc_nonneg w k I Hk). lia.
+Qed.
+
 (* the incarnation is in the table exactly when /proc/<pid>/stat shows the object's start time *)
 Lemma alive_char w x i : Inv w -> obj_ok w x i ->
   (alive w i = true <-> exists k, lookup (table w) (opid x) = Some k /\ ostart x = Some (kstart k)).
 Proof.
-  intros I [(s & Es0 & Hh) _]. split.
-  - intros A. apply alive_true in A as [k [Hk Ei]]. exists k.
-    pose proof (inv_tab _ I _ Hk) as Hk'. rewrite Ei in Hk'.
-    destruct (inv_fun _ I _ _ _ _ _ Hk' Hh) as [Ep Es].
-    split; [|congruence]. rewrite <- Ep. apply lookup_nodup; auto. apply (inv_nodup _ I).
-  - intros [k [L Es]]. apply lookup_some in L as [Hk Ep].
-    pose proof (inv_tab _ I _ Hk) as Hk'. rewrite Ep in Hk'.
-    assert (s = kstart k) by congruence. subst s.
-    apply alive_true. exists k. split; auto. eapply (inv_inj _ I); eauto.
+  intros I ([(s & Es0 & Hh)|(Ei & Es0 & Eg)] & _ & _ & _ & R).
+  - split.
+    + intros A. apply alive_true in A as [k [Hk Ei]]. exists k.
+      pose proof (inv_tab _ I _ Hk) as Hk'. rewrite Ei in Hk'.
+      destruct (inv_fun _ I _ _ _ _ _ Hk' Hh) as [Ep Es].
+      split; [|congruence]. rewrite <- Ep. apply lookup_nodup; auto. apply (inv_nodup _ I).
+    + intros [k [L Es]]. apply lookup_some in L as [Hk Ep].
+      pose proof (inv_tab _ I _ Hk) as Hk'. rewrite Ep in Hk'.
+      assert (s = kstart k) by congruence. subst s.
+      apply alive_true. exists k. split; auto. eapply (inv_inj _ I); eauto.
+  - split.
+    + intros A. rewrite (neg_not_alive w i I) in A by lia. discriminate.
+    + intros [k [_ Es]]. congruence.
 Qed.
 
 Lemma alive_owner w x i : Inv w -> obj_ok w x i -> alive w i = true -> owner w (opid x) = Some i.
 Proof.
-  intros I O A. pose proof O as [(s & Es0 & Hh) _].
-  apply (alive_char w x i I O) in A as [k [L Es]]. rewrite owner_lookup, L.
-  apply lookup_some in L as [Hk Ep]. pose proof (inv_tab _ I _ Hk) as Hk'. rewrite Ep in Hk'.
-  assert (s = kstart k) by congruence. subst s.
-  f_equal. eapply (inv_inj _ I); eauto.
+  intros I O A. pose proof O as ([(s & Es0 & Hh)|(Ei & Es0 & Eg)] & _ & _ & _ & R).
+  - apply (alive_char w x i I O) in A as [k [L Es]]. rewrite owner_lookup, L.
+    apply lookup_some in L as [Hk Ep]. pose proof (inv_tab _ I _ Hk) as Hk'. rewrite Ep in Hk'.
+    assert (s = kstart k) by congruence. subst s.
+    f_equal. eapply (inv_inj _ I); eauto.
+  - rewrite (neg_not_alive w i I) in A by lia. discriminate.
 Qed.
 
-(* == compares incarnations *)
+(* == compares incarnations (for objects built for no process: their PIDs) *)
 Lemma obj_eq_inc w x y i j : Inv w -> obj_ok w x i -> obj_ok w y j -> obj_eq x y = (i =? j).
 Proof.
-  intros I [(s & Esx & Hx) _] [(t & Esy & Hy) _]. unfold obj_eq. rewrite Esx, Esy. cbn [opt_eqb].
-  destruct (Z.eqb_spec i j) as [E|E].
-  - subst j. destruct (inv_fun _ I _ _ _ _ _ Hx Hy) as [-> ->]. rewrite !Z.eqb_refl. reflexivity.
-  - destruct (Z.eqb_spec (opid x) (opid y)) as [Ep|Ep]; [|reflexivity].
-    destruct (Z.eqb_spec s t) as [Es|Es]; [|reflexivity].
-    exfalso. apply E. rewrite Ep, Es in Hx. eapply (inv_inj _ I); eauto.
+  intros I ([(s & Esx & Hx)|(Ei & Esx & Egx)] & _ & _ & _ & Rx) ([(t & Esy & Hy)|(Ej & Esy & Egy)] & _ & _ & _ & Ry);
+    unfold obj_eq; rewrite Esx, Esy; cbn [opt_eqb].
+  - destruct (Z.eqb_spec i j) as [E|E].
+    + subst j. destruct (inv_fun _ I _ _ _ _ _ Hx Hy) as [-> ->]. rewrite !Z.eqb_refl. reflexivity.
+    + destruct (Z.eqb_spec (opid x) (opid y)) as [Ep|Ep]; [|reflexivity].
+      destruct (Z.eqb_spec s t) as [Es|Es]; [|reflexivity].
+      exfalso. apply E. rewrite Ep, Es in Hx. eapply (inv_inj _ I); eauto.
+  - rewrite andb_false_r. symmetry. apply Z.eqb_neq. apply (inv_lt _ I) in Hx. lia.
+  - rewrite andb_false_r. symmetry. apply Z.eqb_neq. apply (inv_lt _ I) in Hy. lia.
+  - rewrite andb_true_r. subst i j.
+    destruct (Z.eqb_spec (opid x) (opid y)); symmetry; [apply Z.eqb_eq|apply Z.eqb_neq]; lia.
 Qed.
 
 (* ---------------------------------------------------------------- Process(pid) *)
@@ -88,7 +108,7 @@ Proof.
   split; [|split; [reflexivity|apply alive_true; eauto]].
   unfold obj_ok; cbn [opid ostart ogone oreused ohash].
   split; [|split; [|split; [|split]]]; auto.
-  - exists (kstart k). split; auto. rewrite <- Ep. apply (inv_tab _ I); auto.
+  - left. exists (kstart k). split; auto. rewrite <- Ep. apply (inv_tab _ I); auto.
   - intros [D|D]; discriminate.
 Qed.
 
@@ -126,7 +146,10 @@ Proof.
     assert (Gx : ogone x = true) by (apply orb_true_iff in G as [G|G]; auto).
     exists x, []. rewrite A. unfold obj_step.
     splits; try reflexivity; auto; try discriminate; try (intros; congruence).
-  - apply orb_false_iff in G as [G1 G2]. pose proof Hh as (s & Es0 & Hh').
+  - apply orb_false_iff in G as [G1 G2].
+    assert (Hreg : exists s, ostart x = Some s /\ In (i, opid x, s) (hist w)).
+    { destruct Hh as [Hreg|(_ & _ & Eg)]; [exact Hreg|congruence]. }
+    pose proof Hreg as (s & Es0 & Hh').
     rewrite (new_obj_self w x i I O). rewrite owner_lookup.
     destruct (lookup (table w) (opid x)) as [k|] eqn:L.
     + cbn [ostart].
@@ -268,6 +291,8 @@ Lemma body_ok_obj w x1 i s x2 r2 scs :
 Proof.
   intros I O (Ep & Es & Er & Eh & Eg & _). pose proof O as (Hh & Hg & Hhash & Hrg & R).
   unfold obj_ok, ident. rewrite Ep, Es, Er, Eh. splits; auto; try lia.
+  - destruct Hh as [Hreg|(Ei & Es0 & Eg0)]; [left; exact Hreg|right].
+    splits; auto. destruct Eg as [Eg|[Eg _]]; congruence.
   - intros [G|G]; [|auto]. destruct Eg as [Eg|[_ Ow]]; [rewrite Eg in G; auto|].
     destruct (alive w i) eqn:A; auto. rewrite (alive_owner w x1 i I O A) in Ow. discriminate.
   - intros Rx. destruct Eg as [Eg|[Eg _]]; [rewrite Eg; auto|auto].
